@@ -149,6 +149,10 @@ pub struct Core {
     /// called (with no borrow held) at every decorated invocation and stream write
     /// no events are recorded (very long runs); counters, depth tracking, hooks and the observer still work
     pub quiet: bool,
+    /// how the embedder's Env is built for this run (consulted by the run helpers): without writers at all
+    /// (`Env::new(None, None, halt)`), or with writers whose flush fails
+    pub env_no_writers: bool,
+    pub env_flush_fails: bool,
     pub yield_hook: Option<fn()>,
     /// consulted before the observer: may answer instead of the real command (workload-level fault plan)
     pub pre_hook: Option<fn(&mut Core, &StartInfo) -> Option<CommandResult>>,
@@ -181,6 +185,8 @@ impl Core {
             registry_len: 0,
             redact: HashSet::new(),
             quiet: false,
+            env_no_writers: false,
+            env_flush_fails: false,
             yield_hook: None,
             pre_hook: None,
             nested_in_current: 0,
@@ -594,6 +600,16 @@ pub struct SimWriter {
     pub faults: Rc<Vec<(u64, WriteFault)>>,
     /// once a BrokenPipe fired every later write fails too (a closed pipe stays closed)
     pub broken: Rc<RefCell<bool>>,
+}
+
+/// The embedder's Env for a run, as the current core settings ask for it.
+pub fn embedder_env(halt: Option<std::sync::Arc<std::sync::atomic::AtomicBool>>) -> Env {
+    let (none, flush) = with_core(|c| (c.env_no_writers, c.env_flush_fails));
+    if none {
+        return Env::new(None, None, halt);
+    }
+    let f = |s: &'static str| SimWriter::new(s, if flush { vec![(0, WriteFault::FlushError)] } else { vec![] });
+    Env::new(Some(Box::new(f("out"))), Some(Box::new(f("err"))), halt)
 }
 
 impl SimWriter {
